@@ -74,6 +74,11 @@ def offending(rng):
         return kind, ["lit", rng.choice([True, 1, "x", None])]
     if kind == "arity":
         return kind, rng.choice([["op", "==", ["fn", "length", q, q], ["lit", 1]], ["fn", "match", q], ["op", ">", ["fn", "count"], ["lit", 0]]])
+    if kind == "argkind" and rng.random() < 0.4:
+        # every argument is checked, also the ones after a nested function call
+        nested = rng.choice([["fn", "value", ["self", "desc", ["sel", ["name", "a"]]]], ["fn", "length", q], ["fn", "count", ["self", ["sel", "wild"]]]])
+        bad2 = rng.choice([nonsing, ["fn", "match", q, ["lit", "a"]], ["op", "==", q, ["lit", 1]], ["self", ["list", ["idx", 0], ["idx", 1]]]])
+        return kind, ["fn", rng.choice(["match", "search"]), nested, bad2]
     if kind == "argkind":
         return kind, rng.choice([["op", "==", ["fn", "length", nonsing], ["lit", 1]], ["op", "==", ["fn", "count", ["lit", 1]], ["lit", 1]],
                                  ["fn", "match", nonsing, ["lit", "a"]], ["op", "==", ["fn", "value", ["lit", "x"]], ["lit", 1]]])
